@@ -462,9 +462,11 @@ def translate_p2(repo):
     need(_same(l1.iter, f"enumerate({projections})"), "`for i, projection in enumerate(projections)` expected")
     pvars, pchecks = unpack_and_check(l1, proj)
     b2, b3, b4 = l1.body[2], l1.body[3], l1.body[4]
-    need(isinstance(b2, ast.Assign) and _name(b2.targets[0]) and (_same(b2.value, f"T.dot(T.transpose({proj}), {proj})") or _same(b2.value, f"T.dot(T.conj(T.transpose({proj})), {proj})")),
-         "`inner_product = T.dot(T.transpose(P), P)` or `T.dot(T.conj(T.transpose(P)), P)` expected")
-    flags["hermitian"] = _same(b2.value, f"T.dot(T.conj(T.transpose({proj})), {proj})")   # which orthonormality test the source has (an oracle of the program)
+    # P^H written either way round (conjugation and transposition commute entry for entry): conj(transpose(P)) or transpose(conj(P))
+    herm_spellings = (f"T.dot(T.conj(T.transpose({proj})), {proj})", f"T.dot(T.transpose(T.conj({proj})), {proj})")
+    need(isinstance(b2, ast.Assign) and _name(b2.targets[0]) and (_same(b2.value, f"T.dot(T.transpose({proj}), {proj})") or any(_same(b2.value, h) for h in herm_spellings)),
+         "`inner_product = T.dot(T.transpose(P), P)` or `T.dot(T.conj(T.transpose(P)), P)` / `T.dot(T.transpose(T.conj(P)), P)` expected")
+    flags["hermitian"] = any(_same(b2.value, h) for h in herm_spellings)   # which orthonormality test the source has (an oracle of the program)
     ip = b2.targets[0].id
     t = raise_if(b3, "orthonormality test")
     need(isinstance(t, ast.Compare) and len(t.ops) == 1 and isinstance(t.ops[0], ast.Gt)
